@@ -251,7 +251,13 @@ func analyse(x *Exec) *RunResult {
 		// Stage B
 		s := newSearcher(x, wr)
 		if len(s.calls) > 60 {
+			// too long for the search (the 50-cycle histories of C12): what is
+			// left is the model-free half of the state oracle - kernel watches,
+			// table sizes and the length of WatchList agree at final quiescence
 			res.Inconcl = "too-many-calls"
+			if !aborted {
+				countOracle(x, wr, add, cnt)
+			}
 			continue
 		}
 		ok := s.run()
